@@ -52,8 +52,11 @@ gmp_sprintf_format (char **bufp, const char *fmt, va_list ap)
 {
   char  *buf = *bufp;
   int   ret;
-  vsprintf (buf, fmt, ap);
-  ret = strlen (buf);
+  /* the count comes from vsprintf itself: a "%c" of 0 puts a NUL into the
+     middle of the output, which strlen would take for the end */
+  ret = vsprintf (buf, fmt, ap);
+  if (ret < 0)
+    return ret;
   *bufp = buf + ret;
   return ret;  
 }
